@@ -150,6 +150,7 @@ type Result struct {
 	Counters   map[string]int
 	HarnessErr string
 	SimTime    time.Duration
+	Decisions  []int // every scheduling decision as an explicit choice code (for the shrinker)
 	Ops        []*OpRecord
 	Media      []*Medium
 	Events     []*PubRecord
@@ -254,6 +255,7 @@ func newSim(in *Input, target string, maxSteps int) *Sim {
 		faults:   append([]Fault(nil), in.Faults...),
 	}
 	s.sched.tailSeed, s.sched.tailPct = in.TailSeed, in.TailPct
+	s.sched.pctSeed, s.sched.pctDepth, s.sched.pctSpan = in.PCTSeed, in.PCTDepth, in.PCTSpan
 	nl := in.Cfg.Ledgers
 	if nl < 1 {
 		nl = 1
@@ -322,6 +324,7 @@ func Run(t *testing.T, in *Input, target string, keepLog bool) (res *Result) {
 		Counters:   s.counter,
 		HarnessErr: s.harnessErr,
 		SimTime:    s.simTime,
+		Decisions:  append([]int(nil), s.sched.made...),
 		Ops:        s.ops,
 		Media:      s.media,
 		Events:     s.events,
